@@ -2,7 +2,7 @@ from registry import reg, Check
 
 reg(Check(
     "C05", "c05",
-    coq_targets=["Subscribe/C05Check.vo", "Subscribe/SubProofs.vo", "Props/C05.vo"],
+    coq_targets=["Subscribe/C05Check.vo", "Subscribe/C07Check.vo", "Subscribe/SubProofs.vo", "Subscribe/SubCheckProofs.vo", "Props/C05.vo"],
     assumptions=[
         "sequential script: the subscriber is quiescent between two steps (a poll trigger is issued only after the previous sync_response was received; cache edits happen between polls, not during a walk); once_weak for concurrent writers is stated over an interleaving model with per-tree atomic queries",
         "cache content is data only: no paths under 'meta', no deprecated 'element' paths, int values, updates do not set an origin in both prefix and path, default cache options (no future threshold, event-driven emulation on)",
